@@ -20,6 +20,7 @@ import GeoProofs.Lemmas.MONOFuelD
 import GeoProofs.Lemmas.MONOAtPoint
 import GeoProofs.Lemmas.MONOChain
 import GeoProofs.Lemmas.MONO2Glue
+import GeoProofs.Lemmas.MONO3Glue
 import GeoProofs.Props.C19
 import Mathlib.Tactic.NormNum
 
@@ -583,6 +584,42 @@ example : monoPos lPiece ⟨2, 2⟩ = specPos lPiece ⟨2, 2⟩ :=
   (monotone_pieces_location_spec_partial [lShape] [⟨[⟨1,0⟩,⟨1,2⟩,⟨3,0⟩], [⟨1,0⟩,⟨3,0⟩]⟩, lPiece]
     (by decide +kernel) (by decide +kernel) ⟨2, 2⟩).1 lPiece
     (List.mem_cons_of_mem _ (List.mem_cons_self ..)) (by decide +kernel)
+
+/-! ### the structural part of ownership holds on every run (MONO3) -/
+
+open Geo.MonoBuild Geo.Proofs.MONO Geo.Proofs.MONO2 Geo.Proofs.MONO3 in
+/-- [T] for ALL inputs (valid or not, panicking or not): in the state returned by every `next_point` of the run, the
+segments reported as ending at the point are pairwise different (each segment has, at any time, at most one queued
+`LineRight` event at its current right end: `split_at` moves a right end strictly to the left and queues exactly one such
+event there, the older ones become the spurious events that `handle_event` drops — invariant `NInv`, MONO3Once/OnceB), and
+the active segment just below the point (`prev_active_from_geom`) is none of the segments reported as ending or as
+starting there (`LineOrPoint::partial_cmp(line, point) = Less` means the point is strictly to the left of the directed
+line, while an end point is collinear — MONO3Bot). These are the first two clauses of `handsB`. -/
+theorem monotone_hand_segments_distinct (ps : List Poly) :
+    ∀ r ∈ midStates (fuelFor (initState ps).segs.length) (fuelFor (initState ps).segs.length) (initState ps),
+      r.2.incoming.Nodup ∧ ∀ b, r.2.prevActive r.1 = some b → b ∉ r.2.incoming ∧ b ∉ r.2.outgoing :=
+  midStates_incoming_nodup _ _ _ (initState_sinv ps) (initState_einv ps)
+
+open Geo.MonoBuild Geo.Proofs.MONO2 Geo.Proofs.MONO3 in
+/-- [T] `monotone_pieces_wellFormed` under the chain-reference part of the ownership hypothesis only. Full statement (not
+proved): `∀ ps ms, monotoneSubdivision ps = some ms → ∀ m ∈ ms, wellFormed m = true`.
+
+`ownedRefs ps` (MONO3Glue) is `ownedSteps ps` without its structural clauses, which `monotone_hand_segments_distinct`
+proves for every input: what is left is that, for the segments whose payload `process_next_pt` reads, the chain indices
+held as `chain_idx` / as a component of a registered `help` are in range and pairwise different, a live chain held as
+`help` has its tip strictly before the point, and the `helper_chain` of the segment below is in range. -/
+theorem monotone_pieces_wellFormed_refs_partial (ps : List Poly) (ms : List MonoPoly)
+    (hown : ownedRefs ps = true) (h : monotoneSubdivision ps = some ms) :
+    ∀ m ∈ ms, wellFormed m = true :=
+  monotone_pieces_wellFormed_partial ps ms (ownedSteps_of_ownedRefs ps hown) h
+
+example : Geo.Proofs.MONO3.ownedRefs k2Witness1 = true ∧ Geo.Proofs.MONO3.ownedRefs k2Witness2 = true := by
+  decide +kernel
+
+example : ∀ m ∈ (MonoBuild.monotoneSubdivision k2Witness1).getD [], wellFormed m = true := by
+  cases h : MonoBuild.monotoneSubdivision k2Witness1 with
+  | none => simp
+  | some ms => exact monotone_pieces_wellFormed_refs_partial _ ms (by decide +kernel) h
 
 /- NOT proved (item 3 of MONO2): for a `polyValid` polygon without holes the model does not return `none`. The
 panics of the model are: (a) `Active::cmp` on two segments that `LineOrPoint::partial_cmp` cannot order (`indexOf`,
